@@ -1,6 +1,7 @@
 """Configuration of ./check C17 (see pylib/props.py)."""
 CFG = dict(
         coq=["props/C17.vo"],
+        tie=["gen/Tie_C17.vo"],
         model_vo=["model/DecRun.vo"],
         extract="Ex_C17",
         level_text="For every entry point (ValidateStrListBytes, ValidateBlockBytes, StrListDecoder.Read/ReadBytes/Decode-on-"
@@ -8,7 +9,8 @@ CFG = dict(
                    "decodeObjTypeAndLen, ReadObject, whole packfile, ReadPktLine, uint/float lists) theorems C17_* : on EVERY "
                    "byte string the transliterated decoder returns a value or an error - never the model's Panic outcome, "
                    "which every Go index/slice/BigEndian read can produce -, never exhausts a loop fuel of |b|+2, and allocates "
-                   "<= c*|b| + k on the model's allocation meter with explicit (c, k) per decoder; C17_reject_clean: "
+                   "<= c*|b| + k on the model's allocation meter with explicit (c, k) per decoder; C17_receive_total: "
+                   "Receive never panics / never exhausts its fuel; C17_reject_clean: "
                    "Receive keeps the store closed (blocks valid, tables with all blocks/indices/table index/profile, commits "
                    "with parents) for every packfile and every outcome; the pre-fix variants are refuted "
                    "(C17_unchecked_refuted {0,0}; C17_alloc_uncapped_refuted 8 bytes -> 96 GiB); C17_alloc_s2_refuted is the "
@@ -17,8 +19,9 @@ CFG = dict(
         level_note="PARTIAL by design for allocation: the bound is a theorem about the model's meter (charging conventions in "
                    "lib/GoSlice.v), tied to the real allocator only through the harness ceiling 64*len+1MiB; Receive's "
                    "allocation is not bounded (s2 header, known finding; store contents). Receive is modelled over abstract "
-                   "hash / s2 / block-index-sum functions tabulated by the harness; its no-panic property is checked by the "
-                   "correspondence (status compared), the closure property is a theorem. Well-formedness (bytes < 256) is a "
+                   "hash / s2 / block-index-sum functions tabulated by the harness (its no-panic and closure properties are "
+                   "theorems for every such function; dprof profiling and IndexBlock are not modelled beyond the shape checks "
+                   "IndexTable performs before calling them). Well-formedness (bytes < 256) is a "
                    "premise of the robustness theorems.",
         rule="fixed witnesses of the repaired defects; Receive: 12 (quick) / 150 (thorough) consistent worlds (blocks, tables "
              "with correct index sums, commit chain) sent valid and with one object dropped / moved / bit-flipped / truncated / "
